@@ -155,8 +155,6 @@ class PolyChordOptimizer(Optimizer):
             modes_array = [data[:, 2:num_fit_params+2]]
             modes_weights = [data[:, 0]]
 
-        modes_array = np.asarray(modes_array)
-        modes_weights = np.asarray(modes_weights)
 
         for nmode in range(num_clusters):
 
